@@ -286,6 +286,11 @@ class Run:
         self.log.append(('act', 'scribble', a[1]))
         chart.scribble(a[1])
         self.calls_log.append(('mark', a[1]))
+      elif k == 'clear_spy':
+        # the handler empties the FULL spy in the middle of its own step (the step's own lines are not part of it yet)
+        if hasattr(chart, 'clear_spy'):
+          self.log.append(('act', 'clear_spy', None))
+          chart.clear_spy()
 
   def _mk(self, i):
     sp = self.spec
